@@ -252,7 +252,7 @@ func (s *ExecutableSchema) ExecuteQuery(ctx context.Context) *graphql.Response {
 	if len(executeErrs) > 0 {
 		traceErr(executeErrs)
 		return s.interceptResponse(ctx, operation.Name, operationCtx.RawQuery, variables, &graphql.Response{
-			Errors: executeErrs,
+			Errors: append(errs, executeErrs...),
 		})
 	}
 
